@@ -1,6 +1,7 @@
 //! vh - conformance harness binding the TLA+ specifications under /verif/specs to the real library.
 #![allow(dead_code)]
 mod util;
+mod c14;
 mod c22;
 mod c27;
 mod c28;
@@ -14,6 +15,7 @@ fn main() {
     }
     let args = util::Args::parse(&argv[1..]);
     match argv[0].as_str() {
+        "c14" => c14::main(&args),
         "c22" => c22::main(&args),
         "c27" => c27::main(&args),
         "c28" => c28::main(&args),
